@@ -53,6 +53,15 @@ theorem lookup_key_is_request_mid : Generated.Dedup.lookupKeyIsRequestMID = true
 /-- `handleReq` holds the per-message-ID mutex around check – handle – store (atomicity premise). -/
 theorem handleReq_atomic_per_mid : Generated.Dedup.handleReqLockedPerMID = true := rfl
 
+/-- The connections the servers create themselves are the connections the theorems are about: `dtls/server.createConn`
+    and `udp/server.getOrCreateConn` build them with `udp/client`'s default response cache (no replacement cache is
+    handed in), and the datagram server finds a peer's existing connection (concrete local address) before the
+    wildcard-keyed one that `Server.NewConn` makes — so a peer's datagrams keep reaching the connection that holds
+    its replies.  (The behaviour itself is checked on real servers by the harness levels `dtlssrv` and `udpsrv`.) -/
+theorem server_made_connections_keep_the_cache :
+    Generated.Dedup.dtlsServerConnDefaultCache = true ∧ Generated.Dedup.udpServerConnDefaultCache = true ∧
+    Generated.Dedup.udpPeerLookupConcreteFirst = true := by decide
+
 /-! ## the invariant holds on every reachable state -/
 
 theorem trace_ok (msgID : Nat) (evs : List Ev) : TraceOk lifetimeNs (run msgID evs).trace := by
@@ -238,6 +247,7 @@ open CoapVerif.Props.C05
 #print axioms empty_reply_is_cached
 #print axioms lookup_key_is_request_mid
 #print axioms handleReq_atomic_per_mid
+#print axioms server_made_connections_keep_the_cache
 #print axioms trace_ok
 #print axioms traceOk_split
 #print axioms dup_not_rehandled
